@@ -95,8 +95,11 @@ hll_sketch_alloc<A>::hll_sketch_alloc(HllSketchImpl<A>* that) :
 
 template<typename A>
 hll_sketch_alloc<A>& hll_sketch_alloc<A>::operator=(const hll_sketch_alloc<A>& other) {
-  sketch_impl->get_deleter()(sketch_impl);
-  sketch_impl = other.sketch_impl->copy();
+  if (this != &other) {
+    HllSketchImpl<A>* copy = other.sketch_impl->copy(); // copy first: `other` may alias, and this may be moved-from
+    if (sketch_impl != nullptr) sketch_impl->get_deleter()(sketch_impl);
+    sketch_impl = copy;
+  }
   return *this;
 }
 
